@@ -803,7 +803,7 @@ var sizeSyms = []sizeSym{
 	{"comment", "comment-own-line", func(n int) string { return "\n# " + padC[:n-2] + "\n" }},
 	{"comment", "comment-after-blank", func(n int) string { return " # " + padC[:n-2] + "\n" }},
 	{"comment", "comment-attached", func(n int) string { return "#" + padC[:n-1] + "\n" }},
-	{"comment", "comment-of-braces", func(n int) string { return "\n# " + strings.Repeat("} { ", n/4)[:n-2] + "\n" }},
+	{"comment", "comment-of-braces", func(n int) string { return "\n# " + strings.Repeat("} { ", n/4+1)[:n-2] + "\n" }},
 	{"ws", "blank-lines", func(n int) string { return padNL[:n] }},
 	{"ws", "blanks", func(n int) string { return padBlank[:n] }},
 	{"ws", "indentation", func(n int) string { return "\n" + padBlank[:n] }},
